@@ -43,6 +43,7 @@ EvOK(e) ==
                             /\ e.fch1_milli = F.fhi_milli                     \* first channel = highest frequency, in MHz
                             /\ e.foff_milli = -F.df_milli                     \* descending: negative channel width, in MHz
                             /\ e.tsamp_micro = F.tbin_micro                   \* seconds
+                            /\ Abs(e.tstart_off_us - F.stt_offs_us) <= 5      \* MJD = STT_IMJD + (STT_SMJD + STT_OFFS)/86400
 
 TInit == tid \in 1..NT /\ l = 1 /\ MarkInit(tid)
 TNext == /\ l <= Len(Ev)
